@@ -182,18 +182,17 @@ Crash == /\ up /\ crashes < MaxCrash
          /\ mpc' = "idle" /\ mfile' = "" /\ cpc' = "idle" /\ cins' = {} /\ couts' = {}
          /\ UNCHANGED <<frags, sst, trash, logs, written, cur, removedEver, vid, edits>>
 
+\* what open does to the durable state, as functions of it (also used by MC_Cleanup to print the expected outcome)
+ReF1 == IF Len(frags) <= MaxFrags THEN Rolled(frags) ELSE frags
+ReToList == IF "ReplaySkipsListing" \in Dev THEN {f \in logs : f \notin sst /\ f \notin ListedIn(ReF1)} ELSE logs \ ListedIn(ReF1)
+ReF2 == IF ReToList = {} THEN ReF1 ELSE AppendEdit(ReF1, [rm |-> {}, add |-> ReToList])
+ReSst2 == sst \cup logs
+ReOrphans == {f \in Orphans(ReF2) : f \in ReSst2 /\ f \notin trash}
 Reopen == /\ ~up
-          /\ LET f1 == IF Len(frags) <= MaxFrags THEN Rolled(frags) ELSE frags
-                 listed1 == ListedIn(f1)
-                 tolist == IF "ReplaySkipsListing" \in Dev THEN {f \in logs : f \notin sst /\ f \notin listed1} ELSE logs \ listed1
-                 f2 == IF tolist = {} THEN f1 ELSE AppendEdit(f1, [rm |-> {}, add |-> tolist])
-                 sst2 == sst \cup logs
-                 orphans == {f \in Orphans(f2) : f \in sst2 /\ f \notin trash}
-                 listed2 == ListedIn(f2)
-             IN /\ frags' = f2
-                /\ sst' = sst2 \ orphans /\ trash' = trash \cup orphans
-                /\ cur' = [id |-> vid + 1, files |-> listed2] /\ vid' = vid + 1
-                /\ cnt' = Up1(Zero, listed2)
+          /\ frags' = ReF2
+          /\ sst' = ReSst2 \ ReOrphans /\ trash' = trash \cup ReOrphans
+          /\ cur' = [id |-> vid + 1, files |-> ListedIn(ReF2)] /\ vid' = vid + 1
+          /\ cnt' = Up1(Zero, ListedIn(ReF2))
           /\ logs' = {} /\ up' = TRUE
           /\ UNCHANGED <<written, held, todo, mpc, mfile, cpc, cins, couts, removedEver, edits, crashes>>
 
